@@ -47,7 +47,7 @@ PROP = {
                                "as a function of per-syscall kernel results; tied to the code through the data clauses of the trace monitor "
                                "(exact bytes and counts of every completion on real TCP connections, FIFOs and adapted net.Conns), and directly by the "
                                "`xfer` component: `readOp`/`writeOp` are executed by `sonicdrv xfer` on the same per-call schedule that a scripted "
-                               "io.ReadWriter behind a real AsyncAdapter (async_adapter.go) or a fed FIFO / a drained one-page pipe behind sonic.Open (file.go, both directions) was given, and "
+                               "io.ReadWriter behind a real AsyncAdapter (async_adapter.go) or a fed FIFO / a drained one-page pipe behind sonic.Open (file.go, both directions) or a fed loopback connection from sonic.Dial (conn.go) was given, and "
                                "result class, count and bytes of every completion must be equal (Sonic/Model/XferStep.lean)"],
     "assumptions": [
         "the kernel delivers a TCP/pipe byte stream in order (FIFO); which bytes a single syscall moves is arbitrary (the theorem's schedule)",
